@@ -1,3 +1,4 @@
 From Coq Require Import ZArith Extraction ExtrOcamlBasic.
-From CyVerif Require Import Lib.CInt Model.M_IntPow.
-Extraction "../ocaml/gen/m_intpow.ml" ex_keep int_pow int_pow_ck pow2 pow2_value wrap in_rangeb.
+From CyVerif Require Import Lib.CInt Model.M_IntPow Model.M_PowDoc.
+Extraction "../ocaml/gen/m_intpow.ml" ex_keep int_pow int_pow_ck pow2 pow2_value wrap in_rangeb
+  pow_type pow_coerced doc_coerced deliver doc_allows.
